@@ -102,7 +102,7 @@ def _cat_data(shape, nser, rnd, number_format=None):
         spec = ["c%d" % i for i in range(rnd.choice([40, 300]))]
         d.categories = spec
     elif shape == "numbers":
-        spec = [1, 2.5, -3, 1e6][: rnd.choice([2, 4])]
+        spec = rnd.choice([[1, 2.5, -3, 1e6], [0, 1, 2, -3], [0.0, 0.5, 1e6, 2], [-1, 0, 1, 2]])[: rnd.choice([2, 4])]  # zero is a number like any other
         d.categories = spec
     elif shape == "dates":
         spec = [_dt.date(1900, 1, 1), _dt.date(1900, 2, 28), _dt.date(1900, 3, 1), _dt.date(2020, 12, 31)][: rnd.choice([2, 4])]
